@@ -821,6 +821,9 @@ class SymEx:
             return [(st, ('seq', ()))]
         if not args:
             return None
+        if name == 'pk::vec_of':
+            items = self.as_seq(st, args[0])
+            return [(st, ('seq', tuple(items)))] if items is not None else None
         trait = (t or {}).get('func', {}).get('trait') or ''
         seqish = ('Iterator' in trait or 'IntoIterator' in trait or '<impl [T]>::' in name or 'Vec::<T, A>::' in name
                   or 'Vec::<T>::' in name or 'array' in name or 'slice::' in name or 'Itertools' in trait
@@ -845,6 +848,8 @@ class SymEx:
             cur = self.load(st, args[0])
             base = self.as_seq(st, cur)
             if base is None:
+                if isinstance(cur, tuple) and cur[0] == 'seqmin':
+                    return [(st, UNIT)]      # known prefix, unknown tail: appending keeps the prefix
                 return None
             if last == 'push':
                 new = base + [self.deep(st, args[1]) if args[1][0] != 'ref' else args[1]]
@@ -861,7 +866,11 @@ class SymEx:
                     st.frames[r[1]][r[2]] = self._set_path(b0, list(r[3]), o1) if r[3] else o1
                     return [(st, UNIT)]
                 if other is None:
-                    return None
+                    # appended by a sequence of unknown length: the prefix is still known
+                    r = args[0]
+                    b0 = st.frames[r[1]].get(r[2])
+                    st.frames[r[1]][r[2]] = self._set_path(b0, list(r[3]), ('seqmin', tuple(base))) if r[3] else ('seqmin', tuple(base))
+                    return [(st, UNIT)]
                 new = base + other
                 if last == 'append' and args[1][0] == 'ref':
                     r = args[1]
